@@ -164,7 +164,8 @@ pub fn simulate(recipe: &WorldRecipe) -> Vec<ObservableInstanceState> {
         _ => {
             // "gm": a lone grandmaster
             let s = seg(&mut w, &mut ch);
-            let p = port(&mut ch, s, ch_bool(&mut ch));
+            let p2p = ch_bool(&mut ch);
+            let p = port(&mut ch, s, p2p);
             let n = node(&mut ch, 1, vec![p], pt);
             w.add_node(n, &mut ch);
         }
